@@ -205,15 +205,15 @@ func pathSpaces(g *vlib.G) []graphSpace {
 		{n: 2, directed: true, weighted: true}, {n: 3, directed: true, weighted: true},
 		{n: 4, directed: true},
 		{n: 5},
-		{n: 5, weighted: true, stride: vlib.Pick(g, 61, 3), offset: 3},
-		{n: 4, directed: true, weighted: true, stride: vlib.Pick(g, 997, 31), offset: 11},
+		{n: 5, weighted: true, stride: vlib.Pick(g, 61, 1), offset: vlib.Pick(g, 3, 0), rotate: true},
+		{n: 4, directed: true, weighted: true, stride: vlib.Pick(g, 997, 7), offset: 4},
 	}
 	return sp
 }
 
 func genBetweenness(g *vlib.G) {
 	for _, s := range pathSpaces(g) {
-		forGraphs(s, s.stride <= 1, func(key string, mk func() *built) {
+		forGraphs(s, s.stride <= 1 && !s.rotate, func(key string, mk func() *built) {
 			g.Case(key, func(t *vlib.T) { checkBetweenness(t, mk()) })
 		})
 		if g.Stopped() {
@@ -224,7 +224,7 @@ func genBetweenness(g *vlib.G) {
 
 func genDistance(g *vlib.G) {
 	for _, s := range pathSpaces(g) {
-		forGraphs(s, s.stride <= 1, func(key string, mk func() *built) {
+		forGraphs(s, s.stride <= 1 && !s.rotate, func(key string, mk func() *built) {
 			g.Case(key, func(t *vlib.T) { checkDistance(t, mk()) })
 		})
 		if g.Stopped() {
